@@ -720,6 +720,64 @@ def n22_format(body, log):
         log.append("N22")
 
 
+def n25_dyn_cast(body, log):
+    """N25: `let X = &EXPR as &dyn Comments;` ==> `let verif_tN = EXPR; let X = verif_unsize_comments(&verif_tN);`
+    (temporary lifetime extension made explicit, and the unsizing coercion to `&dyn Comments` made an explicit identity
+    call as in N17; Verus models neither)."""
+    n = 0
+    while True:
+        m = mask(body)
+        hit = re.search(r"(?<![A-Za-z0-9_])let\s+([A-Za-z_][A-Za-z0-9_]*)\s*=\s*&", m)
+        found = None
+        while hit:
+            semi = hit.end()
+            depth = 0
+            while semi < len(m) and not (m[semi] == ";" and depth == 0):
+                if m[semi] in "([{":
+                    depth += 1
+                elif m[semi] in ")]}":
+                    depth -= 1
+                semi += 1
+            stmt = m[hit.end():semi]
+            cm = re.search(r"\s+as\s+&\s*dyn\s+Comments\s*$", stmt)
+            if cm:
+                found = (hit, semi, cm)
+                break
+            hit = re.search(r"(?<![A-Za-z0-9_])let\s+([A-Za-z_][A-Za-z0-9_]*)\s*=\s*&", m[semi:])
+            if hit:
+                # re-anchor offsets
+                off = semi
+                class _H:  # minimal match-like object
+                    pass
+                h2 = _H()
+                h2.start = lambda o=off, h=hit: h.start() + o
+                h2.end = lambda o=off, h=hit: h.end() + o
+                h2.group = lambda k, h=hit: h.group(k)
+                hit = h2
+        if not found:
+            return body
+        hit, semi, cm = found
+        expr = body[hit.end():hit.end() + cm.start()].strip()
+        tmp = "verif_t%d" % n
+        n += 1
+        new = "let %s = %s;\nlet %s = verif_unsize_comments(&%s);" % (tmp, expr, hit.group(1), tmp)
+        body = body[:hit.start()] + new + body[semi + 1:]
+        log.append("N25")
+
+
+def n26_program_dispatch(body, log):
+    """N26: `P.visit_mut_with(&mut V)` on a Program ==> `V.visit_mut_program(&mut P)` (swc_ecma_visit:
+    `impl<V: VisitMut> VisitMutWith<V> for Program { fn visit_mut_with(&mut self, v: &mut V) { v.visit_mut_program(self) } }`;
+    applied only where the contract file asks for it; on another node type the result does not type-check)."""
+    while True:
+        m = mask(body)
+        hit = re.search(r"(?<![A-Za-z0-9_.])([A-Za-z_][A-Za-z0-9_]*)\s*\.\s*visit_mut_with\s*\(\s*&mut\s+([A-Za-z_][A-Za-z0-9_]*)\s*\)", m)
+        if not hit:
+            return body
+        body = body[:hit.start()] + "%s.visit_mut_program(&mut %s)" % (hit.group(2), hit.group(1)) + body[hit.end():]
+        log.append("N26")
+
+
 def n17_unsize(body, log):
     """N17: the implicit unsizing coercion `&mut X` -> `&mut dyn IdentProvider` in the struct literal field
     `ident_provider: &mut ident_provider` is made an explicit call of the identity function `verif_unsize_provider`
@@ -755,6 +813,8 @@ RULES = {
     "N21": n21_tokens_loop,
     "N24": n24_wildcard_param,
     "N22": n22_format,
+    "N25": n25_dyn_cast,
+    "N26": n26_program_dispatch,
 }
 
 # order matters: N8 restructures arms first, N4 then wraps guarded blocks, then closures are inlined
